@@ -572,6 +572,7 @@ func runC07(w *World, r *Report) {
 	r.Rule("R-C07-10", "a constant index, a constant slice bound, or a slice s[a:len(s)-b] into a slice or string of unknown length is behind a length test (or a prefix/suffix/emptiness test) that implies the element exists", 100)
 	r.Rule("R-C07-11", "a pointer-typed struct member that the function tests against nil somewhere is dereferenced only where a test of the same member found it non-nil (or right after it was given a fresh object)", 20)
 	r.Rule("R-C07-12", "a function that lists a directory and calls itself for the entries recurses only behind the not-yet-visited edge of a string-keyed visited set that it has just extended", 1)
+	r.Rule("R-C07-13", "every function of the interpreter packages that can call itself again (directly or through other functions of the package) while descending into the members of a value does so behind a depth guard: the cycle passes through a function all of whose further calls are unreachable once the true edge of its guard (a function that counts the nesting against a constant) is removed; or behind an int parameter that bounds the depth; walkers of parser-built trees are tabled exceptions", 5)
 	r.Rule("R-C07-6", "every recover() in the repository is called directly by a function that is the target of a defer statement (a recover() in a helper recovers nothing)", 4)
 
 	var fns []*ssa.Function
@@ -998,6 +999,9 @@ func runC07(w *World, r *Report) {
 		}
 	}
 
+	// ---- R-C07-13: recursive value walkers are bounded
+	c07RecursiveWalkers(w, r, fns)
+
 	// ---- R-C07-6: a recover() that can recover
 	// Go honours recover() only when the deferred function calls it directly.  A recover() moved
 	// into a helper that the deferred function calls returns nil and recovers nothing.
@@ -1383,4 +1387,300 @@ func c07SameKindChecked(fn *ssa.Function, a, b ssa.Value, ta *ssa.TypeAssert) bo
 	})
 
 	return found
+}
+
+// c07RecursiveWalkers: R-C07-13.
+var c07WalkerOK = map[string]string{
+	"ast.Walk|recursive descent into a value":                  "walks the syntax tree the parser built from source text: a finite tree whose depth is the nesting depth of the source (the parser recursed as deep to build it)",
+	"ast.dump|recursive descent into a value":                  "same syntax tree (debug dump)",
+	"format.printer.printExprList|recursive descent into a value": "same syntax tree (formatter)",
+	"resolve.walker.resolveExpr|recursive descent into a value":   "same syntax tree (formatter's resolver)",
+	"resolve.walker.walkStmtsIn|recursive descent into a value":   "same syntax tree (formatter's resolver)",
+	"resolve.walker.walkStmt|recursive descent into a value":      "same syntax tree (formatter's resolver)",
+	"json.reconstructValue|recursive descent into a value":        "walks a value that encoding/json decoded from text: a finite tree, which cannot contain itself",
+	"bytecode.copyStructRecursive|recursive descent into a value": "recurses only into members that are structure values, and a structure value is copied when it is stored: a structure cannot contain itself by value (probed: o.in.up = o; p := o)",
+	"bytecode.CallWithReceiver|recursive descent into a value":    "unwraps pointers to interface values until it reaches the native value on which the member lookup already found the method; a pointer chain that does not end in such a value fails that lookup first",
+}
+
+func c07RecursiveWalkers(w *World, r *Report, fns []*ssa.Function) {
+	seenPkg := map[*types.Package]bool{}
+
+	for _, fn := range fns {
+		if fn.Pkg == nil || seenPkg[fn.Pkg.Pkg] {
+			continue
+		}
+
+		seenPkg[fn.Pkg.Pkg] = true
+
+		c07RecursiveWalkersIn(w, r, fns, fn.Pkg.Pkg)
+	}
+}
+
+func c07RecursiveWalkersIn(w *World, r *Report, fns []*ssa.Function, pkgTypes *types.Package) {
+	dp := &struct{ Types *types.Package }{pkgTypes}
+
+	inPkg := map[*ssa.Function]bool{}
+
+	var pkgFns []*ssa.Function
+
+	for _, fn := range fns {
+		if fn.Pkg != nil && fn.Pkg.Pkg == dp.Types {
+			inPkg[fn] = true
+			pkgFns = append(pkgFns, fn)
+		}
+	}
+
+	edges := map[*ssa.Function][]*ssa.Function{}
+
+	for _, fn := range pkgFns {
+		allCalls(fn, func(ci ssa.CallInstruction) {
+			if cf := calleeFunction(ci.Common()); cf != nil && inPkg[cf] {
+				edges[fn] = append(edges[fn], cf)
+			}
+		})
+	}
+
+	// guards: a function whose calls into the package are all unreachable once the
+	// true edge of a depth-guard call is removed
+	isGuardCall := func(v ssa.Value) bool {
+		c, ok := v.(*ssa.Call)
+		if !ok || c == nil {
+			return false
+		}
+
+		g := calleeFunction(c.Common())
+		if g == nil || !inPkg[g] || g.Signature.Params().Len() != 0 {
+			return false
+		}
+
+		// increments a counter and compares it with a constant
+		adds, cmps := false, false
+
+		allInstrs(g, func(in ssa.Instruction) {
+			if cc, ok := in.(*ssa.Call); ok && strings.HasSuffix(callID(cc.Common()), ".Add") && strings.HasPrefix(callID(cc.Common()), "sync/atomic.") {
+				adds = true
+			}
+
+			if bo, ok := in.(*ssa.BinOp); ok && (bo.Op == token.GTR || bo.Op == token.GEQ || bo.Op == token.LSS || bo.Op == token.LEQ) {
+				if _, isC := bo.Y.(*ssa.Const); isC {
+					cmps = true
+				}
+			}
+		})
+
+		return adds && cmps
+	}
+
+	canReach := func(from, to *ssa.Function) bool {
+		seen := map[*ssa.Function]bool{}
+		stack := []*ssa.Function{from}
+
+		for len(stack) > 0 {
+			f := stack[len(stack)-1]
+			stack = stack[:len(stack)-1]
+
+			if f == to {
+				return true
+			}
+
+			if seen[f] {
+				continue
+			}
+
+			seen[f] = true
+			stack = append(stack, edges[f]...)
+		}
+
+		return false
+	}
+
+	guarded := map[*ssa.Function]bool{}
+
+	for _, fn := range pkgFns {
+		cuts := cutEdges(fn, func(f Fact) bool { return f.Kind == "true" && isGuardCall(f.V) })
+		if len(cuts) == 0 {
+			continue
+		}
+
+		ok := true
+
+		allCalls(fn, func(ci ssa.CallInstruction) {
+			cf := calleeFunction(ci.Common())
+			if cf == nil || !inPkg[cf] || isGuardCall(ci.Value()) || !canReach(cf, fn) {
+				return
+			}
+
+			if _, isDefer := ci.(*ssa.Defer); isDefer {
+				return
+			}
+
+			if instrReachableAfterCut(fn, ci, cuts) {
+				ok = false
+			}
+		})
+
+		if ok {
+			guarded[fn] = true
+		}
+	}
+
+	// the other guard shape: an int parameter that bounds the depth -- every call that can
+	// lead back lies behind the comparison of that parameter with a constant
+	for _, fn := range pkgFns {
+		if guarded[fn] {
+			continue
+		}
+
+		for _, p := range fn.Params {
+			if !types.Identical(p.Type(), types.Typ[types.Int]) {
+				continue
+			}
+
+			// the edges on which the depth is used up: depth <= 0 (or < 1, == 0)
+			cuts := cutEdges(fn, func(f Fact) bool {
+				if f.Kind != "cmp" || f.X != ssa.Value(p) {
+					return false
+				}
+
+				_, isC := f.Y.(*ssa.Const)
+
+				return isC && (f.Op == token.GTR || f.Op == token.GEQ || f.Op == token.NEQ)
+			})
+
+			if len(cuts) == 0 {
+				continue
+			}
+
+			ok, any := true, false
+
+			allCalls(fn, func(ci ssa.CallInstruction) {
+				cf := calleeFunction(ci.Common())
+				if cf == nil || !inPkg[cf] || !canReach(cf, fn) {
+					return
+				}
+
+				any = true
+
+				if instrReachableAfterCut(fn, ci, cuts) {
+					ok = false
+				}
+			})
+
+			if ok && any {
+				guarded[fn] = true
+			}
+		}
+	}
+
+	// can fn reach itself without passing a guarded function?
+	for _, fn := range pkgFns {
+		if fn.Parent() != nil || guarded[fn] {
+			continue
+		}
+
+		seen := map[*ssa.Function]bool{}
+
+		var stack []*ssa.Function
+
+		stack = append(stack, edges[fn]...)
+		loops := false
+
+		for len(stack) > 0 {
+			f := stack[len(stack)-1]
+			stack = stack[:len(stack)-1]
+
+			if f == fn {
+				loops = true
+
+				break
+			}
+
+			if seen[f] || guarded[f] {
+				continue
+			}
+
+			seen[f] = true
+			stack = append(stack, edges[f]...)
+		}
+
+		if !loops {
+			continue
+		}
+
+		// only walkers of values: a parameter (or receiver) that is an interface, a pointer to
+		// Map / Struct / Array, or a slice of interfaces
+		walksValues := false
+
+		for _, p := range fn.Params {
+			switch t := p.Type().Underlying().(type) {
+			case *types.Interface:
+				walksValues = true
+			case *types.Slice:
+				if _, isI := t.Elem().Underlying().(*types.Interface); isI {
+					walksValues = true
+				}
+			case *types.Pointer:
+				if n := namedOf(t); n != nil {
+					switch n.Obj().Name() {
+					case "Map", "Struct", "Array":
+						walksValues = true
+					}
+				}
+			}
+		}
+
+		if !walksValues {
+			continue
+		}
+
+		// descent into MEMBERS: a call that can lead back here gets an argument taken out of a
+		// container (element of a slice, value of a map, result of a Get / Keys accessor, range
+		// value). Unwrapping one wrapper (Scalar.value, Immutable.Value) is not a descent.
+		descends := false
+
+		allCalls(fn, func(ci ssa.CallInstruction) {
+			cf := calleeFunction(ci.Common())
+			if cf == nil || !inPkg[cf] || !canReach(cf, fn) {
+				return
+			}
+
+			for _, a := range ci.Common().Args {
+				if derivesFrom(a, func(v ssa.Value) bool {
+					switch x := v.(type) {
+					case *ssa.IndexAddr, *ssa.Index, *ssa.Lookup, *ssa.Next:
+						return true
+					case *ssa.Call:
+						if f := staticCallee(x.Common()); f != nil {
+							switch f.Name() {
+							case "Get", "GetAlways", "Keys", "Elements", "BaseArray", "FieldNames":
+								return true
+							}
+						}
+					}
+
+					return false
+				}, nil) {
+					descends = true
+				}
+			}
+		})
+
+		if !descends {
+			continue
+		}
+
+		key := fnKey(fn) + "|recursive descent into a value"
+
+		if why, ok := c07WalkerOK[key]; ok {
+			r.Except("R-C07-13", key, w.pos(fn.Pos()), why)
+		} else {
+			r.Violate("R-C07-13", key, w.pos(fn.Pos()), "this function descends into the members of a value and can reach itself again without passing a depth guard: for a value that contains itself (a map stored under one of its own keys, structures that point at each other) it recurses until the Go runtime ends the process")
+		}
+	}
+
+	for _, fn := range pkgFns {
+		if guarded[fn] {
+			r.Discharge("R-C07-13", fnKey(fn)+"|guarded", w.pos(fn.Pos()), "every further call lies behind the nesting guard")
+		}
+	}
 }
